@@ -34,13 +34,23 @@ def revcomp(s: str) -> str:
 
 
 def sorted_blocks(blocks):
-    """non-empty blocks in ascending order (the generator guarantees strictly increasing starts among non-empty)"""
+    """non-empty blocks in ascending (start, end) order"""
     return sorted([tuple(b) for b in blocks if b[1] > b[0]])
 
 
+def canonical_sort(blocks, strand):
+    """the documented canonical block order (CompoundInterval._sort_starts_ends: 'incrementing order relative to the
+    orientation'): ascending start; ties on start broken by end ascending on plus/unstranded and by end descending on
+    minus, so that the 5'->3' scan of a minus location is the exact mirror image"""
+    if strand == "-":
+        return sorted(blocks, key=lambda b: (b[0], -b[1]))
+    return sorted(blocks, key=lambda b: (b[0], b[1]))
+
+
 def positions(blocks, strand: str):
-    """list of parent positions in 5'->3' order (plus/unstranded: ascending)"""
-    bl = sorted_blocks(blocks)
+    """list of parent positions in 5'->3' order: blocks in canonical order (reversed on minus), each block ascending
+    (descending on minus).  For non-overlapping blocks this is simply ascending / descending coordinate order."""
+    bl = canonical_sort([tuple(b) for b in blocks if b[1] > b[0]], strand)
     if strand == "-":
         out = []
         for s, e in reversed(bl):
@@ -72,7 +82,12 @@ def blocks_of_set(ps):
 
 def has_self_overlap(blocks):
     bl = sorted_blocks(blocks)
-    return any(bl[i][1] > bl[i + 1][0] for i in range(len(bl) - 1))
+    reach = None
+    for s_, e_ in bl:
+        if reach is not None and s_ < reach:
+            return True
+        reach = e_ if reach is None else max(reach, e_)
+    return False
 
 
 def seq_image(genome: str, pos_list, strand: str) -> str:
@@ -109,13 +124,6 @@ def loc_positions(loc):
             out.extend(range(s, e))
     return out
 
-
-def canonical_sort(blocks, strand):
-    """the documented canonical block order: ascending start; ties broken by end ascending on plus/unstranded and
-    by end descending on minus (so that the 5'->3' scan of a minus location is the exact mirror)"""
-    if strand == "+":
-        return sorted(blocks, key=lambda b: (b[0], b[1]))
-    return sorted(blocks, key=lambda b: (b[0], -b[1]))
 
 
 def wellformed(loc, ctx, clause, optimized=False, parent_len=None, expect_strand=None):
